@@ -322,7 +322,7 @@ pub fn run(ctx: &Ctx) -> i32 {
     );
     let gates = ctx.gates_for("C06");
     let off = gates.off_list();
-    let cases = ctx.tier.pick(3_000, 60_000);
+    let cases = ctx.tier.pick(8_000, 150_000);
     let cli_budget = std::sync::atomic::AtomicI64::new(ctx.tier.pick(80, 2000));
     let out = run_tapes("C06", ctx.seed, ctx.threads, cases, 700, |tape, stats, counting| {
         let g = Gates::with_off(off.clone());
